@@ -1,4 +1,6 @@
 import BasicModel.Lemmas.Step
+import BasicModel.Lemmas.Inv
+import BasicModel.Lemmas.RunClear
 /-
   C12 — RUN, CLEAR and NEW reset state completely.
 
@@ -157,6 +159,78 @@ example : (doNew env0 used).tron = false ∧ (doNew env0 used).dirty = true ∧
 example : ((step env0 false).run.run { used with tron := false, pc := 0 }).2.pc = 1 ∧
     ((step env0 false).run.run { used with tron := false, pc := 0 }).2.stack = #[] := by
   rw [step_clear env0 false _ rfl rfl]; decide
+
+/-! ### RUN in any state of any history runs exactly as in a fresh interpreter
+
+  (corollary of the invariant `Runtime.Inv`, Lemmas/Inv.lean and Thm/C04.lean: `inv_reachable`,
+  `run_eq_fresh`) -/
+
+/-- the state right after RUN's CLEAR — core, program, listing, everything — is the one a fresh
+    interpreter holding the same listing (and prompt / TRON / column) is in -/
+theorem run_clear_state_eq_fresh (env : Env) (s : Runtime) (line : Line) (hn : line.number = none)
+    (hi : Inv s) :
+    doClear env (enterDirect s line) = doClear env (enterDirect (freshLike s) line) ∧
+    core (doClear env (enterDirect s line)) = core ({} : Runtime) :=
+  ⟨run_state_eq_freshLike env s line hn hi, rfl⟩
+
+/-- **the first quantum of a RUN, and therefore everything after it, is identical to a fresh
+    run.**  `s`: any state satisfying the invariant (every reachable state), TROFF; `line`: a
+    direct line whose code starts with `Clear` (RUN / RUN n: `run_compiles_to_clear_jump`) and
+    that compiled without direct-mode errors.  Then `execute` with any quantum `k + 1` returns the
+    same event *and the same state* as in the fresh interpreter `freshLike s`; from equal states
+    all later API calls coincide by determinism. -/
+theorem run_identical_to_fresh_run (env : Env) (s : Runtime) (line : Line) (hn : line.number = none)
+    (hi : Inv s) (htr : s.tron = false)
+    (hde : (enterDirect s line).listing.directErrors = [])
+    (hop : (enterDirect s line).program.link.ops[(enterDirect s line).pc]? = some .clear) (k : Nat) :
+    execute env (enterDirect s line) (k + 1) = execute env (enterDirect (freshLike s) line) (k + 1) := by
+  obtain ⟨d, hp⟩ := enterDirect_program_inv s line hn hi
+  have hq := freshLike_program s line
+  obtain ⟨f1, f2, f3, f4, f5⟩ := enterDirect_fields s line
+  obtain ⟨g1, g2, g3, g4, g5⟩ := enterDirect_fields (freshLike s) line
+  have e := run_state_eq_freshLike env s line hn hi
+  -- the two entered states agree on everything the first step looks at
+  have hpc : (enterDirect s line).pc = (enterDirect (freshLike s) line).pc := by
+    rw [f2, g2, hp, hq, Program.withDP_directAddress]
+  have hde' : (enterDirect (freshLike s) line).listing.directErrors = [] := by
+    rw [g4, hq]; rw [f4, hp, Program.withDP_errors] at hde; exact hde
+  have hop' : (enterDirect (freshLike s) line).program.link.ops[(enterDirect (freshLike s) line).pc]? =
+      some .clear := by
+    rw [← hpc, hq]; rw [hp, Program.withDP_ops] at hop; exact hop
+  have hie : hasIndirectErrors (enterDirect s line) = hasIndirectErrors (enterDirect (freshLike s) line) := by
+    unfold hasIndirectErrors; rw [f3, g3, hp, hq, Program.withDP_indirectErrors]
+  have hst : doClear env { enterDirect s line with pc := (enterDirect s line).pc + 1 } =
+      doClear env { enterDirect (freshLike s) line with pc := (enterDirect (freshLike s) line).pc + 1 } := by
+    show ({ doClear env (enterDirect s line) with pc := (enterDirect s line).pc + 1 } : Runtime) =
+      { doClear env (enterDirect (freshLike s) line) with pc := (enterDirect (freshLike s) line).pc + 1 }
+    rw [e, hpc]
+  rw [execute_running env _ _ f1 hde, execute_running env _ _ g1 hde', executeLoop_run, executeLoop_run]
+  unfold slice
+  rw [sliceRun_succ, sliceRun_succ, step_clear env _ _ (f5.trans htr) hop,
+    step_clear env _ _ (g5.trans htr) hop', hie, hst]
+
+/-- the same with the hypothesis "the direct code starts with `Clear`" discharged: it suffices
+    that the parser returns, for the direct line, what it returns for `RUN` (`bits` = -1.0) and
+    `RUN n` (`lineExpr`): `[.run c (.single c2 bits)]`.  (The parser recurses on fuel and does not
+    reduce in the kernel, so its result stays a hypothesis here; generator, `append`, `push End`
+    and `link` are covered by `enterDirect_run_starts_with_clear`.) -/
+theorem run_identical_to_fresh_run_of_parse (env : Env) (s : Runtime) (line : Line) (hn : line.number = none)
+    (hi : Inv s) (htr : s.tron = false) (c c2 : Col) (bits : UInt32)
+    (hparse : Parse.parse none line.tokens = .ok [.run c (.single c2 bits)])
+    (hde : (enterDirect s line).listing.directErrors = []) (k : Nat) :
+    execute env (enterDirect s line) (k + 1) = execute env (enterDirect (freshLike s) line) (k + 1) :=
+  run_identical_to_fresh_run env s line hn hi htr hde
+    (enterDirect_run_starts_with_clear s line hn hi c c2 bits hparse) k
+
+/-- the invariant holds in the initial state and after CLEAR / NEW (they touch only the DATA
+    cursor of the program; NEW sets `dirty`) -/
+theorem inv_clear_new (env : Env) (s : Runtime) (hi : Inv s) : Inv (doClear env s) ∧ Inv (doNew env s) :=
+  ⟨inv_of_keep hi (keep_doClear env s), inv_of_keep hi (keep_doNew env s)⟩
+
+/-- non-vacuity: the initial state satisfies the invariant, so RUN typed first thing is covered -/
+example (env : Env) (line : Line) (hn : line.number = none) :
+    doClear env (enterDirect ({} : Runtime) line) = doClear env (enterDirect (freshLike {}) line) :=
+  (run_clear_state_eq_fresh env {} line hn inv_init).1
 
 end Thm.C12
 end Basic
